@@ -80,6 +80,9 @@ package db
 //@   modifies elems(string)
 //@   loop * invariant bucket-unchanged: pathOK(b) && b.depth == old(b.depth) && b.path == old(b.path)
 //@   ensures top-level-buckets-are-never-deleted: old(b.depth) == 1 ==> err != nil
+//@   assert-at call BucketNames sub-buckets-are-listed-from-this-bucket: arg0 == b
+//@   assert-at call Bucket every-listed-sub-bucket-is-opened: arg0 == b && arg1 == lastresult("BucketNames", 0)[#iter]
+//@   assert-at call deleteBucket and-deleted-with-the-same-batch-before-the-records-of-this-bucket: arg1 == batch && arg0 == unbox("*LDBBucket", lastresult("Bucket"))
 //@   assert-at call BytesPrefix scans-exactly-path-plus-separator: len(arg0) == len(b.path) + 1 && (forall j int :: 0 <= j && j < len(b.path) ==> arg0[j] == b.path[j]) && arg0[len(b.path)] == 95
 //@   assert-at call NewIterator iterates-this-transaction-over-that-prefix: arg0 == b.tx.tr && arg1 == lastresult("BytesPrefix")
 //@   assert-at call Delete#1 deletes-only-what-the-scan-yields: arg1 == lastresult("Key")
